@@ -201,7 +201,7 @@ fn op_case(ctx: &mut Ctx, d: Drv, offered: u64, opc: u128, arg: u128) {
 fn ops_of(d: Drv) -> Vec<(u128, u128)> {
     match d {
         Drv::Blk => vec![(1, 0), (2, 0)], Drv::Console => vec![(3, 0), (4, 0x41)], Drv::Gpu => vec![(5, 0)],
-        Drv::NetRaw => vec![(6, 0), (7, 60)], Drv::Net => vec![(7, 61)], Drv::Rng => vec![(8, 16)], _ => vec![],
+        Drv::NetRaw => vec![(6, 0), (7, 60), (7, 0), (7, 1), (7, 1514)], Drv::Net => vec![(7, 61), (7, 0), (7, 1)], Drv::Rng => vec![(8, 16)], _ => vec![],
     }
 }
 
